@@ -268,6 +268,17 @@ def implicit_coercion_table(C, R):
 def run(ctx, R):
     C = ctx.core
     implicit_coercion_table(C, R)
+    # r7: "a value of the declared type" is decided by Type::is_valid_value (used by make_edge_parameters for explicit values and by
+    # the schema for defaults): its decision table over every type x value class is C12 r2 / C17 r3, re-evaluated here as a guard
+    R.rule("r7", "edge parameter values are of the declared type: Type::is_valid_value equals its definition (C12 r2 re-evaluated)")
+    from tfv.core import Report
+    from . import C12
+    R12 = Report("C12", ctx.tier, 0)
+    C12.run(ctx, R12)
+    bad12 = [v for v in R12.violations if v["rule"] in ("r2", "engine")]
+    R.check(not bad12, "r7", "value-of-declared-type", "-",
+            "Type::is_valid_value admits a value that is not of the type (%s): an edge parameter declared with that type reaches the adapter "
+            "holding such a value" % (bad12[0]["msg"][:200] if bad12 else ""), {"c12_instances": len(R12.instances)})
     R.rule("r1", "type-name vid = activation vid = ResolveInfo vid at every adapter call site")
     R.rule("r2", "property / edge arguments come from the same IR node as the vid; internal calls pass projections of one edge/fold")
     R.rule("r3", "coercion arguments: (coerced_from_type, type_name) of one vertex, in order; re-coercion (endpoint type, coerce_to)")
